@@ -623,9 +623,46 @@ def make_shims(world):
         triangular_solve=opaque_linalg("triangular_solve"),
     )
 
+    def lax_slice_in_dim(operand, start_index, limit_index, stride=1, axis=0):
+        a = as_arr(operand)
+        ax = A.norm_axis(A._as_int(axis), a.ndim)
+        start = A._as_int(start_index)
+        limit = a.shape[ax] if limit_index is None else A._as_int(limit_index)
+        if start < 0 or limit > a.shape[ax] or start > limit:
+            raise AbstractError("slice_in_dim: [%d:%d] is out of bounds for axis of size %d" % (start, limit, a.shape[ax]))
+        return a[(slice(None),) * ax + (slice(start, limit, A._as_int(stride)),)]
+
+    def lax_slice(operand, start_indices, limit_indices, strides=None):
+        a = as_arr(operand)
+        strides = strides or (1,) * a.ndim
+        if len(start_indices) != a.ndim or len(limit_indices) != a.ndim:
+            raise AbstractError("lax.slice: one start / limit index per axis is required")
+        for s0, l0, n in zip(start_indices, limit_indices, a.shape):
+            if A._as_int(s0) < 0 or A._as_int(l0) > n or A._as_int(s0) > A._as_int(l0):
+                raise AbstractError("lax.slice: indices out of bounds")
+        return a[tuple(slice(A._as_int(s0), A._as_int(l0), A._as_int(st)) for s0, l0, st in zip(start_indices, limit_indices, strides))]
+
+    def lax_dynamic_slice_in_dim(operand, start_index, slice_size, axis=0):
+        a = as_arr(operand)
+        ax = A.norm_axis(A._as_int(axis), a.ndim)
+        size = A._as_int(slice_size)
+        start = max(0, min(A._as_int(start_index), a.shape[ax] - size))  # jax clamps dynamic slices
+        return a[(slice(None),) * ax + (slice(start, start + size),)]
+
+    def lax_index_in_dim(operand, index, axis=0, keepdims=True):
+        a = as_arr(operand)
+        ax = A.norm_axis(A._as_int(axis), a.ndim)
+        i = A._as_int(index)
+        r = a[(slice(None),) * ax + (slice(i, i + 1) if i != -1 else slice(i, None),)]
+        return r if keepdims else A.squeeze(r, ax)
+
     lax = NS(
         "jax.lax",
         stop_gradient=stop_gradient,
+        slice_in_dim=lax_slice_in_dim,
+        slice=lax_slice,
+        dynamic_slice_in_dim=lax_dynamic_slice_in_dim,
+        index_in_dim=lax_index_in_dim,
         conv_general_dilated=lambda *a, **k: conv_general_dilated(W, *a, **k),
         conv_general_dilated_patches=lambda *a, **k: conv_general_dilated_patches(W, *a, **k),
         Precision=Precision,
@@ -790,6 +827,8 @@ def make_shims(world):
         filter_vmap=filter_vmap,
         nn=eqx_nn,
         is_array=is_array,
+        # structural no-ops for the analysis: filtering a pytree by a predicate keeps the tree
+        filter=lambda tree, spec=None, **k: tree,
     )
 
     # ------------------------------------------------------------------ typing & misc
